@@ -192,7 +192,7 @@ func intervalOf(v ssa.Value, depth int) ival {
 }
 
 func runC04(c *core.Ctx) core.Meta {
-	c.Load(instsPkg, "amd/emu", "amd/timing/cu")
+	c.Load(instsPkg, "amd/emu", "amd/emu/cdna3", "amd/timing/cu")
 	c.BuildSSA()
 	p := c.Pkg(instsPkg)
 	pi := NewPkgInfo(c, instsPkg)
@@ -1309,6 +1309,7 @@ func runC04(c *core.Ctx) core.Meta {
 	// ---------------- R04.14 field positions against the ISA manuals (c04layout.go) ----------------
 	checkInstLayout(c, core.NewLocalProv(c), t)
 	checkEncodingSiblings(c, t)
+	checkExtractHelpers(c)
 
 	return core.Meta{Level: "other",
 		Explanation: "Totality and determinism of decoding decided from tables and code shape of amd/insts: the 18-row format table (mask/encoding/overlap/order/opcode field), the ~1000-row decode table evaluated from constant expressions incl. the VOP1→VOP3a copy loop (duplicates, field width, VOP3b routing, dispatch coverage), every getOperand call site against the computed set of defined operand codes with an interval analysis of the code argument, buffer-access bounds per format, size accounting, and error handling at the three callers.",
